@@ -93,6 +93,100 @@ def invariant_obligation(run, prop, rule, repo, sc, obj, entry_qual, scen, what=
     return not probs
 
 
+def cut_respected(sc, roots):
+    """a relative cut of the singular values of a decomposition (np.where / boolean mask / np.count_nonzero with count k) bounds the rank that is kept: every column
+    selection of the U factor of that decomposition that reaches `roots` has at most k columns -- provably (a later cap may reduce it further, never enlarge it).
+    Returns a list of messages."""
+    probs = []
+    anc = A.ancestors([r for r in roots if isinstance(r, Arr)])
+    for e in sc.events('where'):
+        k = e.get('count')
+        if k is None:
+            continue
+        uid, todo, seen = None, [e.get('cond')], set()
+        while todo and uid is None:
+            a = todo.pop()
+            if not isinstance(a, Arr) or id(a) in seen:
+                continue
+            seen.add(id(a))
+            pv = a.tags.get('prov')
+            if isinstance(pv, dict) and 'svd' in pv:
+                if pv.get('role') == 's':
+                    uid = pv['svd']
+                continue
+            todo.extend(a.parents or ())
+            ex = a.tags.get('expr')
+            if ex:
+                todo.extend(o for o in ex[1] if isinstance(o, Arr))
+        if uid is None:
+            continue
+        for a in anc.values():
+            pv = a.tags.get('prov')
+            if isinstance(pv, dict) and pv.get('svd') == uid and pv.get('role') == 'u' and 'sel' in pv and a.ndim == 2:
+                if not rank_le(sc, a.shape[1], k):
+                    probs.append(f'{a.shape[1]} columns of the left factor are kept although only {k} singular values pass the threshold test (the cut is overridden, e.g. by a cap computed '
+                                 f'from the uncut length)')
+    return sorted(set(probs))
+
+
+def whole_matrix_call_obligations(run, prop, rule, repo, sc, scen, mods=None):
+    """basis functions are evaluated at single snapshots (see the event emitted by the basis-function models)"""
+    for e in sc.events('whole-matrix-call'):
+        if not in_modules(e, mods):
+            continue
+        where, cons, f, ln = ev_where(repo, e, mods)
+        run.oblige(rule, (where, cons, 'whole-matrix-call'), False)
+        run.add(Finding(prop, rule, where, cons, f'{scen}: {e["detail"]}', f, ln, {'scenario': scen}))
+
+
+def conj_parities(target, source_pred, limit=4000):
+    """parities (0 = unconjugated, 1 = conjugated) with which arrays satisfying `source_pred` enter `target`, over all def-use paths (parents and arrays stored
+    into buffers).  {0}: enters unconjugated on every path, {1}: conjugated on every path, {0, 1}: both (e.g. X^H X), empty: does not enter."""
+    out, seen, todo = set(), set(), [(target, 0)]
+    while todo and len(seen) < limit:
+        a, par = todo.pop()
+        if not isinstance(a, Arr) or (id(a), par) in seen:
+            continue
+        seen.add((id(a), par))
+        if source_pred(a):
+            out.add(par)
+            continue
+        p2 = par ^ (1 if a.origin == 'conj' and a.dt == 'complex' else 0)
+        for p_ in (a.parents or ()):
+            todo.append((p_, p2))
+        for p_ in getattr(a.buf, 'inputs', ()) or ():
+            todo.append((p_, par))
+        ex = a.tags.get('expr')
+        if ex:
+            for o in ex[1]:
+                if isinstance(o, Arr):
+                    todo.append((o, par))
+    return out
+
+
+def plain_args_frame(run, prop, rule, repo, quals, an=None):
+    """the given public functions do not modify their plain (non tensor-train) arguments in place: option lists such as per-bond rank caps, reaction tables,
+    data matrices.  A caller that re-uses the object (a sweep over thresholds with one caps list, a second model built from one reaction table) would get a
+    different result the second time.  Layer-1 effect summaries (all paths)."""
+    from . import own
+    an = an or own.analyse(repo)
+    for (qual, ct), sm in sorted(an.summ.items(), key=lambda kv: kv[0][0]):
+        if qual not in quals:
+            continue
+        fn = repo.fns[qual]
+        effects = {}
+        for path, sites in list(sm.rebinds.items()) + list(sm.bufwrites.items()):
+            root = path.split('.')[0].rstrip('[]')
+            if root in fn.params and root != (fn.params[0] if fn.cls else None):
+                effects.setdefault(root, set()).update(sites)
+        run.oblige(rule, (qual, ct, 'arguments unmodified'), not effects)
+        for root, sites in effects.items():
+            s0 = sorted(sites)[0]
+            run.add(Finding(prop, rule, fn.where, f'{root} <- {s0[3]}', f'argument `{root}` is modified in place ({s0[1]}:{s0[2]} {s0[3]}): a later call with the same object sees different settings',
+                            fn.file, fn.node.lineno))
+    return an
+
+
 def lost_update_obligations(run, prop, rule, repo, sc, scen, mods=None):
     """buffered in-place updates through index arrays whose index tuples may repeat (a[I, J] += w): contributions to a repeated position are lost, so the result is
     not the sum of the contributions"""
